@@ -360,4 +360,85 @@ theorem handle_sentBy (s s' : Sys) (m : Msg) (ms : List Msg) (hx : s.handle m = 
     | withdrawReward who v => simp only [Sys.handle] at hx; exc_norm at hx; exc_split at hx; rfl
     | setWithdrawAddr who a => simp only [Sys.handle] at hx; exc_norm at hx; exc_split at hx; rfl
 
+/-! ### a top-level call that the addressed contract rejects is a failed transaction: nothing
+     changes anywhere, attached funds included -/
+
+theorem exec_rejected_hub (s : Sys) (sender : Addr) (funds : List (Denom × Nat)) (hm : HubMsg)
+    (h : ∀ e, e.self = hubA → ∃ err, hubExec s.hub e sender funds hm = .error err) :
+    ∃ err, s.exec (.wasm sender hubA (.hub hm) funds) = (s, .error err) := by
+  cases hh : s.handle (.wasm sender hubA (.hub hm) funds) with
+  | error e => exact ⟨e, exec_top_fails s _ e hh⟩
+  | ok r =>
+    exfalso
+    obtain ⟨s', ms⟩ := r
+    cases handle_touch s s' _ ms hh with
+    | none _ hm' _ =>
+      rcases hm' with hm' | ⟨a, b, c, d, heq, ht⟩
+      · exact hm' _ _ _ _ rfl
+      · injection heq with _ e2 _ _
+        rcases ht with ht | ht <;> (rw [ht] at e2; cases e2)
+    | hub s1 sender' funds' hm' heq h1 hc hx' _ _ _ _ _ =>
+      injection heq with e1 _ e3 e4
+      injection e3 with e3
+      subst e1; subst e3; subst e4
+      obtain ⟨err, he⟩ := h s1.hubEnv rfl
+      rw [he] at hx'; cases hx'
+    | bsei s1 sender' funds' tm heq _ _ _ _ _ _ _ => injection heq with _ e2 _ _; cases e2
+    | stsei blk sender' funds' tm heq _ _ _ _ _ _ => injection heq with _ e2 _ _; cases e2
+    | reward s1 sender' funds' rm heq _ _ _ _ _ _ _ => injection heq with _ e2 _ _; cases e2
+    | disp env sender' funds' dm heq _ _ _ _ _ _ => injection heq with _ e2 _ _; cases e2
+    | reg s1 sender' funds' rm heq _ _ _ _ _ _ _ => injection heq with _ e2 _ _; cases e2
+
+theorem exec_rejected_disp (s : Sys) (sender : Addr) (funds : List (Denom × Nat)) (dm : DispMsg)
+    (h : ∀ env, ∃ err, dispExec s.disp dispA env sender dm = .error err) :
+    ∃ err, s.exec (.wasm sender dispA (.disp dm) funds) = (s, .error err) := by
+  cases hh : s.handle (.wasm sender dispA (.disp dm) funds) with
+  | error e => exact ⟨e, exec_top_fails s _ e hh⟩
+  | ok r =>
+    exfalso
+    obtain ⟨s', ms⟩ := r
+    cases handle_touch s s' _ ms hh with
+    | none _ hm' _ =>
+      rcases hm' with hm' | ⟨a, b, c, d, heq, ht⟩
+      · exact hm' _ _ _ _ rfl
+      · injection heq with _ e2 _ _
+        rcases ht with ht | ht <;> (rw [ht] at e2; cases e2)
+    | disp env sender' funds' dm' heq hx' _ _ _ _ _ =>
+      injection heq with e1 _ e3 e4
+      injection e3 with e3
+      subst e1; subst e3; subst e4
+      obtain ⟨err, he⟩ := h env
+      rw [he] at hx'; cases hx'
+    | hub s1 sender' funds' hm' heq _ _ _ _ _ _ _ _ => injection heq with _ e2 _ _; cases e2
+    | bsei s1 sender' funds' tm heq _ _ _ _ _ _ _ => injection heq with _ e2 _ _; cases e2
+    | stsei blk sender' funds' tm heq _ _ _ _ _ _ => injection heq with _ e2 _ _; cases e2
+    | reward s1 sender' funds' rm heq _ _ _ _ _ _ _ => injection heq with _ e2 _ _; cases e2
+    | reg s1 sender' funds' rm heq _ _ _ _ _ _ _ => injection heq with _ e2 _ _; cases e2
+
+theorem exec_rejected_reward (s : Sys) (sender : Addr) (funds : List (Denom × Nat)) (rm : RewMsg)
+    (h : ∀ tk dp bb, ∃ err, rewardExec s.reward rewardA tk dp bb sender rm = .error err) :
+    ∃ err, s.exec (.wasm sender rewardA (.reward rm) funds) = (s, .error err) := by
+  cases hh : s.handle (.wasm sender rewardA (.reward rm) funds) with
+  | error e => exact ⟨e, exec_top_fails s _ e hh⟩
+  | ok r =>
+    exfalso
+    obtain ⟨s', ms⟩ := r
+    cases handle_touch s s' _ ms hh with
+    | none _ hm' _ =>
+      rcases hm' with hm' | ⟨a, b, c, d, heq, ht⟩
+      · exact hm' _ _ _ _ rfl
+      · injection heq with _ e2 _ _
+        rcases ht with ht | ht <;> (rw [ht] at e2; cases e2)
+    | reward s1 sender' funds' rm' heq _ hx' _ _ _ _ _ =>
+      injection heq with e1 _ e3 e4
+      injection e3 with e3
+      subst e1; subst e3; subst e4
+      obtain ⟨err, he⟩ := h (s1.hubTokenOf s1.reward.hub) (s1.hubDispatcherOf s1.reward.hub) (s1.chain.bank rewardA)
+      rw [he] at hx'; cases hx'
+    | hub s1 sender' funds' hm' heq _ _ _ _ _ _ _ _ => injection heq with _ e2 _ _; cases e2
+    | bsei s1 sender' funds' tm heq _ _ _ _ _ _ _ => injection heq with _ e2 _ _; cases e2
+    | stsei blk sender' funds' tm heq _ _ _ _ _ _ => injection heq with _ e2 _ _; cases e2
+    | disp env sender' funds' dm heq _ _ _ _ _ _ => injection heq with _ e2 _ _; cases e2
+    | reg s1 sender' funds' rm' heq _ _ _ _ _ _ _ => injection heq with _ e2 _ _; cases e2
+
 end Krp
